@@ -440,6 +440,64 @@ func checkC18(c *Check) {
 		s2 := []AppStage{stage(b, "p_say", hx("two\n"), sl("0")), stage(b, "p_tagA")}
 		add(b.finish("capture/two-in-a-row", VarDecl{Names: []string{"o1", "e1", "c1"}, Short: true, Values: []Expr{AppCall{s1}}}, VarDecl{Names: []string{"o2", "e2", "c2"}, Short: true, Values: []Expr{AppCall{s2}}}, pr(vr("o1"), vr("c1"), vr("o2"), vr("c2")), Assign{[]string{"o1", "e1", "c1"}, []Expr{AppCall{s2}}}, pr(vr("o1"), vr("c1"), cmp("==", vr("c1"), il(0)), bin("+", vr("o1"), vr("o2")))))
 	}
+	// an argument that brings its own double quotes (a raw literal like the grep pattern in std/os.tsh) is handed to
+	// the shell as written - the program receives the text between the quotes; its neighbours are still ordinary
+	// values and arrive as exactly one unchanged word each
+	{
+		selfQuotedHook := func(stages [][]string, fs map[string][]byte) (string, int) {
+			for _, st := range stages {
+				for i := 1; i < len(st); i++ {
+					a := st[i]
+					if len(a) >= 2 && a[0] == '"' && a[len(a)-1] == '"' && !strings.ContainsAny(a[1:len(a)-1], "\"$`\\") {
+						st[i] = a[1 : len(a)-1]
+					}
+				}
+			}
+			return c18Hook(stages, fs)
+		}
+		siblings := []string{"x  y", "*", "", "a b", " lead", "?", "k1", "[ab]", "-n", "~", "#c", "a;b", "a|b", "a>b"}
+		quotedLits := []string{"\"own quotes\"", "\"<%s>\"", "\"[0-9a-z][0-9a-z]*$$\"", "\"one\""}
+		for qi, q := range quotedLits {
+			if strings.Contains(q, "$") {
+				q = strings.ReplaceAll(q, "$$", "x")
+			}
+			for _, pos := range []string{"first", "middle", "last"} {
+				for _, form := range []string{"literal", "variable", "runtime"} {
+					for _, capture := range []bool{false, true} {
+						b := newC18()
+						for _, f := range []string{"a", "b", "ab", "c.txt", "k1"} {
+							b.pre[f] = f + "\n"
+						}
+						sib := []Expr{}
+						for _, v := range siblings {
+							if a, ok := b.arg(v, form); ok {
+								sib = append(sib, a)
+							}
+						}
+						ql := StrLit{V: q, Raw: true}
+						var args []Expr
+						switch pos {
+						case "first":
+							args = append([]Expr{ql}, sib...)
+						case "last":
+							args = append(append([]Expr{}, sib...), ql)
+						default:
+							args = append(append(append([]Expr{}, sib[:len(sib)/2]...), ql), sib[len(sib)/2:]...)
+						}
+						key := fmt.Sprintf("self-quoted-neighbour/%d/%s/%s/capture=%v", qi, pos, form, capture)
+						var bc BashCase
+						if capture {
+							bc = b.finish(key, VarDecl{Names: []string{"o", "e", "code"}, Short: true, Values: []Expr{AppCall{[]AppStage{stage(b, "p_rec", args...), stage(b, "p_rec2", ql, sib[0], sib[2])}}}}, pr(framed(vr("o")), vr("code")))
+						} else {
+							bc = b.finish(key, ExprStmt{AppCall{[]AppStage{stage(b, "p_rec", args...)}}}, pr(sl("done")))
+						}
+						bc.AppHook = selfQuotedHook
+						add(bc)
+					}
+				}
+			}
+		}
+	}
 	// one call site executed several times: every execution hands over its own arguments and yields its own
 	// output and status (long output, then short, then none; failing, then succeeding)
 	{
